@@ -6,22 +6,6 @@ verus! {
 //@include inc/c03_sighash_env.rs
 use crate::io::Write as _;
 
-// ---- environment (ASSUMED, std / bitcoin_hashes): Option::get_or_insert_with is spelled out by a declared rewrite -----------
-impl sha256::Hash {
-    /// `sha256::Hash::hash(data)`
-    #[verifier::external_body]
-    pub fn hash(data: &[u8]) -> (r: sha256::Hash) ensures r@ == sha256_spec(data@) { unimplemented!() }
-    /// `AsRef<[u8]>::as_ref`: the 32 digest bytes
-    #[verifier::external_body]
-    pub fn as_ref(&self) -> (r: &[u8]) ensures r@ == self@ { unimplemented!() }
-    #[verifier::external_body]
-    pub fn to_byte_array(self) -> (r: [u8; 32]) ensures r@ == self@ { unimplemented!() }
-}
-impl sha256d::Hash {
-    #[verifier::external_body]
-    pub fn from_byte_array(b: [u8; 32]) -> (r: sha256d::Hash) ensures r@ == b@ { unimplemented!() }
-}
-
 proof fn lemma_flat_push<T>(s: Seq<T>, f: spec_fn(T) -> Seq<u8>, i: int)
     requires 0 <= i < s.len()
     ensures flat(s.take(i + 1), f) == flat(s.take(i), f) + f(s[i])
